@@ -690,7 +690,19 @@ func (st *Runtime) evalPrimaryExpressionGroup(node Expression) reflect.Value {
 		return resolved
 	case NodeSliceExpr:
 		node := node.(*SliceExprNode)
-		baseExpression := st.evalPrimaryExpressionGroup(node.Base)
+		baseExpression, isNil := indirect(st.evalPrimaryExpressionGroup(node.Base))
+		if isNil {
+			node.errorf("cannot slice nil pointer/interface (%s)", baseExpression.Type())
+		}
+		switch baseExpression.Kind() {
+		case reflect.String, reflect.Slice:
+		case reflect.Array:
+			if !baseExpression.CanAddr() {
+				node.errorf("cannot slice unaddressable array (%s)", baseExpression.Type())
+			}
+		default:
+			node.errorf("cannot slice value of type %s", getTypeString(baseExpression))
+		}
 
 		var index, length int
 		if node.Index != nil {
@@ -713,6 +725,9 @@ func (st *Runtime) evalPrimaryExpressionGroup(node Expression) reflect.Value {
 			length = baseExpression.Len()
 		}
 
+		if index < 0 || length < index || length > baseExpression.Len() {
+			node.errorf("slice bounds out of range [%d:%d] with length %d", index, length, baseExpression.Len())
+		}
 		return baseExpression.Slice(index, length)
 	}
 	return st.evalBaseExpressionGroup(node)
